@@ -266,6 +266,8 @@ var xCallsStd = []interface{}{
 	[]interface{}{map[string]interface{}{"t": "U", "n": "a"}, map[string]interface{}{"t": "U", "n": "b"}, map[string]interface{}{"t": "U", "n": "c"}},
 	[]interface{}{2, 3, 5},
 	[]interface{}{nil, map[string]interface{}{"t": "undef"}, "x"},
+	[]interface{}{map[string]interface{}{"t": "undef"}, nil, 0},
+	[]interface{}{"", 0, false},
 	[]interface{}{map[string]interface{}{"t": "num", "v": "-0"}, map[string]interface{}{"t": "obj", "v": 4, "props": map[string]interface{}{"x": 1}}, map[string]interface{}{"t": "num", "v": "NaN"}},
 	[]interface{}{map[string]interface{}{"t": "U", "n": "a", "nullish": "x"}, map[string]interface{}{"t": "plain", "v": map[string]interface{}{"x": nil}}, map[string]interface{}{"t": "fn", "v": 7}},
 }
